@@ -91,22 +91,27 @@ class StateContext:
         state: Iterable[State],
         /,
     ) -> Self:
-        try:
-            return cls(state=cls._context.get().updated(state=state))
-
-        except LookupError:  # create new context as a fallback
-            return cls(state=ScopeState(state))
+        return cls(state=state)
 
     def __init__(
         self,
-        state: ScopeState,
+        state: Iterable[State],
     ) -> None:
-        self._state: ScopeState = state
+        self._state: tuple[State, ...] = tuple(state)
         self._token: Token[ScopeState] | None = None
 
     def __enter__(self) -> None:
         assert self._token is None, "StateContext reentrance is not allowed"  # nosec: B101
-        self._token = StateContext._context.set(self._state)
+        # resolving the state when entering - the context which is entered
+        # may differ from the one in which this object was created
+        scope_state: ScopeState
+        try:
+            scope_state = StateContext._context.get().updated(state=self._state)
+
+        except LookupError:  # create new context as a fallback
+            scope_state = ScopeState(self._state)
+
+        self._token = StateContext._context.set(scope_state)
 
     def __exit__(
         self,
